@@ -57,7 +57,7 @@ def _worker_init(scratch):
 
 def _timed(fn):
     signal.signal(signal.SIGALRM, _on_alarm)
-    signal.setitimer(signal.ITIMER_REAL, 10.0)
+    signal.setitimer(signal.ITIMER_REAL, core.tscale(10))
     try:
         return fn()
     finally:
@@ -75,6 +75,25 @@ def _observe(fn):
         if isinstance(e, exceptions.TemplateLookupException):
             return ["exc|lookup"]
         return ["exc:" + ("Timeout" if isinstance(e, _Alarm) else type(e).__name__)]
+
+
+def _observe_render(get_template, **kw):
+    """Like _observe for `get_template().render(**kw)`, but keeps the tokens written before an exception (a render
+    that reaches several writers)."""
+    from mako import exceptions
+    from mako.runtime import Context
+    from mako.util import FastEncodingBuffer
+    buf = FastEncodingBuffer()
+    try:
+        _timed(lambda: get_template().render_context(Context(buf, **kw)))
+        return TOK.findall(buf.getvalue())
+    except BaseException as e:  # noqa
+        if isinstance(e, (KeyboardInterrupt, SystemExit)):
+            raise
+        toks = TOK.findall(buf.getvalue())
+        if isinstance(e, exceptions.TemplateLookupException):
+            return toks + ["exc|lookup"]
+        return toks + ["exc:" + ("Timeout" if isinstance(e, _Alarm) else type(e).__name__)]
 
 
 # --------------------------------------------------------------------------- family "uri"
@@ -113,7 +132,7 @@ def api_call(ns, api, uri):
     raise MachineryError("unknown api %r" % api)
 
 
-def uri_files(layouts, layout, reqs):
+def uri_files(layouts, layout, reqs, reach="none"):
     """All files of a scenario: {(root, 'a/b/name.html'): text}; entry URIs of the requests."""
     lay = layouts[layout - 1]
     files = {}
@@ -146,14 +165,30 @@ def uri_files(layouts, layout, reqs):
             q = json.dumps(u1)
             wtext = ('<%%namespace name="h" file=%s/>' % q) if rq["k1"] == "nsfile" else ("<%% h = local.get_namespace(%s) %%>" % q)
             wtext += "${h.show()}" if k2.startswith("in.") else api_call("h", api, spelled(rq["u2"], "t.html"))
+        if reach == "inherit" and not entries:      # the first writer is inherited by the entry template
+            wname = "nb_" + wname
+            wtext += "${next.body()}"
         files[(1, (wpath + "/" if wpath else "") + wname)] = wtext
         entries.append("/" + (wpath + "/" if wpath else "") + wname)
+    if reach != "none":
+        # ONE render: an entry template at the root reaches every writer (absolute URIs)
+        if reach == "include":
+            etext = "".join('<%%include file="%s"/>' % e for e in entries)
+        elif reach == "nsbody":
+            etext = "".join('<%%namespace name="x%d" file="%s"/>' % (k, e) for k, e in enumerate(entries)) \
+                + "".join("${x%d.body()}" % k for k in range(len(entries)))
+        else:
+            etext = '<%%inherit file="%s"/>' % entries[0] + "".join('<%%include file="%s"/>' % e for e in entries[1:])
+        import hashlib
+        ename = "e_%s.html" % hashlib.sha1(etext.encode()).hexdigest()[:12]
+        files[(1, ename)] = etext
+        entries = ["/" + ename]
     return files, entries
 
 
 def run_uri(layouts, c, backed, size=-1):
     from mako.lookup import TemplateLookup
-    files, entries = uri_files(layouts, c["layout"], c["reqs"])
+    files, entries = uri_files(layouts, c["layout"], c["reqs"], c.get("reach", "none"))
     nroots = layouts[c["layout"] - 1]["nroots"]
     if backed:
         base = os.path.join(_W["scratch"], "tree-%d-%d" % (os.getpid(), c["layout"]))
@@ -180,7 +215,7 @@ def run_uri(layouts, c, backed, size=-1):
             lk.put_string("/" + rel, text)
     out = []
     for e in entries:
-        out += _observe(lambda: lk.get_template(e).render())
+        out += _observe_render(lambda: lk.get_template(e))
     return out
 
 
@@ -208,14 +243,27 @@ def _module_for(fset):
     return name
 
 
-def _ns_tag(kind, iset, fset, extra=""):
+# Member names are opaque in Namespaces.tla; the concretiser writes them in one of these classes (c["nc"], rotated over
+# the scenarios).  Module namespaces keep ordinary names (import="*" of a module skips underscore names, as Python does;
+# the property does not speak about it); names equal to Namespace attributes/methods are not used (undocumented).
+NAME_CLASSES = [lambda n: n, lambda n: "_" + n, lambda n: "__" + n,
+                lambda n: {"p": "match", "q": "case"}.get(n, "async_" + n), lambda n: n[0].upper() + n[1:] + "Mixed_Case"]
+
+
+def cn(c, name, kind=None):
+    if kind == "module":
+        return name
+    return NAME_CLASSES[c.get("nc", 0) % len(NAME_CLASSES)](name)
+
+
+def _ns_tag(kind, iset, fset, extra="", c=None):
     attrs = 'name="ns"' + extra
     if kind == "file":
         attrs += ' file="/o.html"'
     elif kind == "module":
         attrs += ' module="%s"' % _module_for(fset)
     if iset:
-        return "<%%namespace %s>\n%s\n</%%namespace>\n" % (attrs, "\n".join('<%%def name="%s()">{I|%s}</%%def>' % (x, x) for x in sorted(iset)))
+        return "<%%namespace %s>\n%s\n</%%namespace>\n" % (attrs, "\n".join('<%%def name="%s()">{I|%s}</%%def>' % (cn(c or {}, x, kind), x) for x in sorted(iset)))
     return "<%%namespace %s/>\n" % attrs
 
 
@@ -237,14 +285,16 @@ def _lookup_with(templates, backed, tag):
 
 def run_nsprec(c, backed):
     sep = [", ", ",", " , "][(len(c["I"]) + 2 * len(c["C"]) + len(c["F"])) % 3]      # spelling of the import list (cosmetic)
-    imp = {"none": "", "p": ' import="p"', "pq": ' import="p%sq"' % sep, "star": ' import="*"'}[c["imp"]]
-    m = GUARD + _ns_tag(c["kind"], c["I"], c["F"], imp)
+    kind = c["kind"]
+    P, Q = cn(c, "p", kind), cn(c, "q", kind)
+    imp = {"none": "", "p": ' import="%s"' % P, "pq": ' import="%s%s%s"' % (P, sep, Q), "star": ' import="*"'}[c["imp"]]
+    m = GUARD + _ns_tag(kind, c["I"], c["F"], imp, c)
     for x in ("p", "q"):
-        m += "${g(context, 'call|ns.%s', 'ERR|%s', lambda: ns.%s())}\n" % (x, x, x)
-        m += "${g(context, 'call|%s', 'ERR|%s', lambda: %s())}\n" % (x, x, x)
-    o = "".join('<%%def name="%s()">{F|%s}</%%def>\n' % (x, x) for x in sorted(c["F"])) + "o-body\n"
+        m += "${g(context, 'call|ns.%s', 'ERR|%s', lambda: ns.%s())}\n" % (x, x, cn(c, x, kind))
+        m += "${g(context, 'call|%s', 'ERR|%s', lambda: %s())}\n" % (x, x, cn(c, x, kind))
+    o = "".join('<%%def name="%s()">{F|%s}</%%def>\n' % (cn(c, x, kind), x) for x in sorted(c["F"])) + "o-body\n"
     lk = _lookup_with({"/m.html": m, "/o.html": o}, backed, "ns")
-    kw = {x: (lambda x=x: "{C|%s}" % x) for x in c["C"]}
+    kw = {cn(c, x, kind): (lambda x=x: "{C|%s}" % x) for x in c["C"]}
     return _observe(lambda: lk.get_template("/m.html").render(**kw))
 
 
@@ -390,9 +440,10 @@ def run_imports(c, backed):
     tags = []
     names = []
     for k, tag in enumerate(c["tags"], 1):
-        names += ["d%d" % k, "e%d" % k]
-        attrs = ("" if tag["anon"] else 'name="n%d" ' % k) + ('import="d%d"' % k if tag["imp"] == "one" else 'import="*"')
-        defs = "".join('<%%def name="%s%d()">{P%d|%s%d}</%%def>' % (z, k, k, z, k) for z in "de")
+        kd = tag["kind"]
+        names += [(cn(c, "d%d" % k, kd), "d%d" % k), (cn(c, "e%d" % k, kd), "e%d" % k)]
+        attrs = ("" if tag["anon"] else 'name="n%d" ' % k) + ('import="%s"' % cn(c, "d%d" % k, kd) if tag["imp"] == "one" else 'import="*"')
+        defs = "".join('<%%def name="%s()">{P%d|%s%d}</%%def>' % (cn(c, "%s%d" % (z, k), kd), k, z, k) for z in "de")
         if tag["kind"] == "file":
             t["/o%d.html" % k] = defs + "\n"
             tags.append('<%%namespace %s file="/o%d.html"/>' % (attrs, k))
@@ -403,11 +454,11 @@ def run_imports(c, backed):
     m = GUARD + {"lines": "\n", "oneline": "", "text": " x "}[c["layout"]].join(tags) + "\n"
     for k, tag in enumerate(c["tags"], 1):
         for z in "de":
-            m += "${g(context, 'call|%s%d', 'ERR|%s%d', lambda: %s%d())}\n" % (z, k, z, k, z, k)
+            m += "${g(context, 'call|%s%d', 'ERR|%s%d', lambda: %s())}\n" % (z, k, z, k, cn(c, "%s%d" % (z, k), tag["kind"]))
         if not tag["anon"]:
-            m += "${g(context, 'call|n%d.e%d', 'ERR|e%d', lambda: n%d.e%d())}\n" % (k, k, k, k, k)
+            m += "${g(context, 'call|n%d.e%d', 'ERR|e%d', lambda: n%d.%s())}\n" % (k, k, k, k, cn(c, "e%d" % k, tag["kind"]))
     t["/m.html"] = m
-    kw = {x: (lambda x=x: "{C|%s}" % x) for x in names} if c["ctx"] else {}
+    kw = {cname: (lambda x=x: "{C|%s}" % x) for cname, x in names} if c["ctx"] else {}
     lk = _lookup_with(t, backed, "imports")
     return _observe(lambda: lk.get_template("/m.html").render(**kw))
 
@@ -454,9 +505,10 @@ def _plain(u):
 
 
 def _run_batch(args):
-    layouts, items = args
+    layouts, items, seed = args
     res = []
     for idx, c, backed in items:
+        c = dict(c, nc=idx + seed)
         try:
             if c["fam"] == "uri":
                 obs = run_uri(layouts, c, backed)
@@ -513,7 +565,7 @@ def signature(c, exp, obs):
             return "uri:empty-uri:expected(%s):observed(%s)" % (_cls(e), _cls(o)), d
         what = "wrong-target" if (e or "").startswith("at|") and (o or "").startswith("at|") else "expected(%s):observed(%s)" % (_cls(e), _cls(o))
         return "uri:%s:%s%s%s:%s" % (rq["k1"], _features(rq["u1"]), (":hop2(%s)-" % rq.get("k2", "include") + _features(rq["u2"])) if rq["s2"] else "",
-                                     ":request%d" % (d + 1) if len(c["reqs"]) > 1 else "", what), d
+                                     ((":one-render(%s)" % c["reach"] if c.get("reach", "none") != "none" else "") + ":request%d" % (d + 1)) if len(c["reqs"]) > 1 else "", what), d
     prev = exp[d - 1] if d else "START"
     if c["fam"] == "nsprec" and c["imp"] == "star" and e and o and e[0] == "I" and o[0] == "F" and prev == "call|" + e[2:] \
             and e[2:] in c["I"] and e[2:] in c["F"]:
@@ -534,7 +586,12 @@ def random_session(rng, nsp, plain_sp, thorough):
         k1 = rng.choice(kinds) if not s2 else ("include" if k2 == "include" else rng.choice(["nsfile", "getns"]))
         reqs.append({"w": rng.randrange(1, 6), "s1": rng.randrange(1, nsp + 1) if not s2 else rng.randrange(1, nsp),
                      "k1": k1, "s2": s2, "k2": k2})
-    return {"fam": "uri", "layout": layout, "reqs": reqs}
+    reach = rng.choice(["none", "none", "include", "nsbody"])
+    if reach != "none":      # (a writer that itself inherits is not reached through body() in a one-render session)
+        for q in reqs:
+            if q["k1"] == "inherit":
+                q["k1"] = "include"
+    return {"fam": "uri", "reach": reach, "layout": layout, "reqs": reqs}
 
 
 INVS = ["RelativeToWriter", "AbsoluteToRoot", "UnresolvableRaisesLookup", "MemoConsistent", "InlineDefsWin",
@@ -598,7 +655,7 @@ def check(run):
     ctxmp = multiprocessing.get_context("fork")
     with ctxmp.Pool(nproc, initializer=_worker_init, initargs=(scratch,)) as pool:
         try:
-            batches = pool.map_async(_run_batch, [(layouts, c) for c in chunks if c]).get(timeout=900 if thorough else 200)
+            batches = pool.map_async(_run_batch, [(layouts, c, run.seed) for c in chunks if c]).get(timeout=core.tscale(900 if thorough else 200))
         except multiprocessing.TimeoutError:
             pool.terminate()
             raise MachineryError("replay workers timed out")
@@ -621,10 +678,10 @@ def check(run):
         c = recs[idx]["cfg"]
         rep = {"scenario": c, "file_backed": backed, "expected": recs[idx]["out"], "observed": obs, "first_difference": d}
         if c["fam"] == "uri":
-            files, entries = uri_files(layouts, c["layout"], c["reqs"])
+            files, entries = uri_files(layouts, c["layout"], c["reqs"], c.get("reach", "none"))
             rq = c["reqs"][min(d, len(c["reqs"]) - 1)]
             rep["render"] = entries
-            rep["files"] = {"root%d/%s" % k: v for k, v in files.items() if "/w_" in "/" + k[1] or k[1].split("/")[-1][0] in "uh"}
+            rep["files"] = {"root%d/%s" % k: v for k, v in files.items() if "w_" in k[1] or k[1].split("/")[-1][0] in "uhe"}
             rep["spelled"] = spelled(rq["u1"], "t.html")
         run.violation(sig, "real mako disagrees with Namespaces.tla at token %d: expected %s, observed %s (%d scenarios in this class)"
                       % (d, recs[idx]["out"][d] if d < len(recs[idx]["out"]) else "END", obs[d] if d < len(obs) else "END", len(bad[sig])), rep)
@@ -655,7 +712,7 @@ def check(run):
     traces = []
     for t in range(n_sessions):
         s = random_session(run.rng, nsp, None, thorough)
-        conc = {"fam": "uri", "layout": s["layout"],
+        conc = {"fam": "uri", "reach": s["reach"], "layout": s["layout"],
                 "reqs": [{"w": dirs[q["w"] - 1], "k1": q["k1"], "k2": q["k2"], "s1": q["s1"], "s2": q["s2"], "u1": spell[q["s1"]],
                           "u2": spell[q["s2"]] if q["s2"] else {"abs": False, "segs": [], "empty": True}} for q in s["reqs"]]}
         size = run.rng.choice([-1, -1, 1, 2])       # a bounded collection also bounds the _uri_cache memo
@@ -664,23 +721,26 @@ def check(run):
         except Exception as e:  # noqa
             obs = ["exc:" + type(e).__name__]
         traces.append({"id": t + 1, "cfg": s, "out": obs, "size": size, "conc": conc})
+    # negative controls: corrupt recordings; only those whose original is accepted count (corrupting a recording of
+    # misbehaving code can make it right by accident)
     ncs = []
-    base = next((t for t in traces if any(o.startswith("at|") for o in t["out"])), None)
-    if base is not None:
+    for base in [t for t in traces if any(o.startswith("at|") for o in t["out"])][:6]:
         b1 = json.loads(json.dumps(base))
-        b1["id"] = 10 ** 6 + 1
+        b1["id"] = 10 ** 6 + 2 * base["id"]
         k = next(i for i, o in enumerate(b1["out"]) if o.startswith("at|"))
         b1["out"][k] = "exc|lookup"
         b2 = json.loads(json.dumps(base))
-        b2["id"] = 10 ** 6 + 2
+        b2["id"] = 10 ** 6 + 2 * base["id"] + 1
         del b2["out"][k]
-        ncs = [b1, b2]
+        b1["base"] = b2["base"] = base["id"]
+        ncs += [b1, b2]
     tcfg = "CONSTANTS Tier = \"quick\"\nSPECIFICATION TSpec\n" + "".join("INVARIANT %s\n" % i for i in INVS[:4]) + "CHECK_DEADLOCK FALSE\n"
     verdicts = run.validate_traces("Trace_Namespaces", tcfg, [{"id": t["id"], "cfg": t["cfg"], "out": t["out"]} for t in traces + ncs],
                                    name="trace-namespaces", workers=workers, timeout=600)
     run.traces -= len(ncs)
     for nc in ncs:
-        run.negative_control(not verdicts[nc["id"]]["ok"], "Trace_Namespaces accepted a corrupted session (%d)" % nc["id"])
+        if verdicts[nc["base"]]["ok"]:
+            run.negative_control(not verdicts[nc["id"]]["ok"], "Trace_Namespaces accepted a corrupted session (%d)" % nc["id"])
     vbad = {}
     for t in traces:
         v = verdicts[t["id"]]
